@@ -351,6 +351,20 @@ def run(tier, fx=None, ck=None, control=False):
                                    ("a segment equal to %r is kept (its edge reaches the push)" % k) if kept else
                                    "a '..' segment does not remove the previously kept segment (its edge reaches no pop)")
 
+            # R2b: a further advance of the segment iterator inside the loop body pairs the current segment with the one it consumes (`dir/..` look-ahead):
+            # that treats the current segment as a name, so the advance must lie behind the failed tests of all three classes
+            all_cmps = [cb for k_ in found for cb, reach_, t_ in found[k_] if reach_]
+            main_heads = {h for h in heads if all(g.dominates(h, cb) for cb in all_cmps)}
+            for e in sorted(heads - main_heads):
+                missing = [k_ for k_ in ("", ".", "..") if not any(((not reach_) or (g.dominates(cb, e) and e not in reach_)) for cb, reach_, t_ in found.get(k_, []))]
+                te_ = g.term(e)
+                ck.instance("R2.segment-classes", "%s: look-ahead advance only for a segment that is a name" % g.path, F.short_span(te_[6]), ok=not missing)
+                if missing:
+                    ck.finding("R2.segment-classes", "R2.segment-classes/%s/advance-before-class-test" % g.path, F.short_span(te_[6]),
+                               "the loop consumes a further segment (%s) before the current one has failed the test for %s: a '.' or empty segment in front of a '..' "
+                               "is treated as a directory name and the '..' it swallows removes nothing (`./../x`, `a//../x`)"
+                               % (F.short_span(te_[6]), ", ".join(repr(k_) for k_ in missing)))
+
     # ------------------------------------------------------------ R4
     ck.rule("R4.result-from-kept-segments", "every value the normaliser returns is built from the kept segments (no early return of the raw text)", floor=1)
     for np_ in sorted(normalisers):
